@@ -222,8 +222,8 @@ def check_decl(kind, base_t, specs, res: JobResult, tier):
                                 issue("struct:dumps", f"aligned struct behind a dynamic member, unit {uv:#x}: dumps {d2.hex()} != input {data2.hex()} (+ zero padding)", v)
                     except Exception as e:  # noqa: BLE001
                         issue("raises", f"value {v}: {impl.exc_sig(e)} {e!r}", v, exc=type(e).__name__)
-    # legacy parser twin of the auto-numbering (named, literal values only)
-    if base is not None and all(sp in ("auto", "=0", "=1", "=2", "=5", "=0x10", "=3", "=1<<3") for sp in specs):
+    # legacy parser twin of the numbering (named declarations; values may refer to earlier members)
+    if base is not None and all(sp in ("auto", "=0", "=1", "=2", "=5", "=0x10", "=3", "=1<<3", "=PREV+1", "=PREV<<1", "=DUP", "=FIRST|4") for sp in specs):
         cs = cstruct()
         try:
             cs.load(text_of(kind, base, specs, "multiline") + "\n", deftype=cstruct.DEF_LEGACY)
